@@ -225,6 +225,7 @@ pub fn run_c02x(ctx: &mut Ctx, from: u64, to: u64) {
             }
         }
         ctx.count("exhaustive_label_vectors", total as u64);
+        fallback_after_failed_update(ctx, k);
         if ctx.want_sample() && n >= 3 {
             ctx.sample(J::obj(vec![
                 ("n_chars", J::i(n)),
@@ -234,6 +235,48 @@ pub fn run_c02x(ctx: &mut Ctx, from: u64, to: u64) {
                 ("label_vectors_enumerated", J::i(total)),
             ]));
         }
+    }
+}
+
+/// The documented fallback (a single space) after a rejected update on an object that carried tags:
+/// its one token must be reported, written and parsed back like any other sentence.
+pub fn fallback_after_failed_update(ctx: &mut Ctx, k: u64) {
+    let r = guard(|| {
+        let mut s: vaporetto::Sentence<'static, 'static> = match k % 3 {
+            0 => vaporetto::Sentence::from_tokenized("ab/X/Y c/Z").unwrap(),
+            1 => vaporetto::Sentence::from_partial_annotation("a/T-b c|d/U/V/W").unwrap(),
+            _ => {
+                let mut s = vaporetto::Sentence::from_raw("abc".to_string()).unwrap();
+                s.reset_tags(2);
+                s
+            }
+        };
+        let rejected = match k % 4 {
+            0 => s.update_raw(String::new()).is_err(),
+            1 => s.update_raw("a\0b".to_string()).is_err(),
+            2 => s.update_tokenized("a  b").is_err(),
+            _ => s.update_partial_annotation("a?b").is_err(),
+        };
+        (rejected, observe(&s, false))
+    });
+    ctx.eval(1);
+    ctx.count("fallback_sentences_after_rejected_update_checked", 1);
+    match r {
+        Ok((true, obs)) => {
+            let want = RefSentence { chars: vec![' '], labels: vec![], tags: vec![vec![]] };
+            let ok = obs.tokens.len() == 1
+                && obs.tokens[0].start == 0
+                && obs.tokens[0].end == 1
+                && obs.tokens[0].surface == " "
+                && obs.tokenized == fmt::write_tokenized(&want)
+                && obs.partial == " "
+                && obs.n_tags == 0;
+            if !ok {
+                ctx.violation("C02:fallback_sentence_after_rejected_update_is_not_the_single_space_token", J::obj(vec![("observed", obs.to_json()), ("variant", J::i(k % 12))]));
+            }
+        }
+        Ok((false, _)) => ctx.violation("C02:invalid_update_was_accepted", J::i(k % 4)),
+        Err(p) => ctx.violation(&format!("C02:fallback_sentence_after_rejected_update_panicked:{}", panic_site(&p)), J::obj(vec![("panic", J::s(&p)), ("variant", J::i(k % 12))])),
     }
 }
 
@@ -265,6 +308,9 @@ pub fn run_c02r(ctx: &mut Ctx, from: u64, to: u64) {
             .collect();
         let rs = RefSentence { chars, labels, tags };
         c02_check(ctx, &rs, KINDS[kind], k as usize);
+        if k % 64 == 0 {
+            fallback_after_failed_update(ctx, k / 64);
+        }
         if n >= 2 {
             ctx.nontrivial(fnv(format!("{:?}{:?}{:?}", rs.chars, rs.labels, rs.tags).as_bytes()));
         }
@@ -484,9 +530,90 @@ pub fn strings_up_to(alpha_len: u64, max_len: u32) -> u64 {
     (0..=max_len).map(|l| alpha_len.pow(l)).sum()
 }
 
+/// Round trip of sentence states that only histories produce: the fallback after a rejected update,
+/// and a tagged sentence after `predict` + `fill_tags` with a predictor whose model has no tag model.
+fn special_states_round_trip(ctx: &mut Ctx, prop: &str, k: u64, partial: bool) {
+    let r = guard(|| {
+        let mut out = vec![];
+        // (a) fallback
+        let mut s: vaporetto::Sentence<'static, 'static> = vaporetto::Sentence::from_tokenized("ab/X/Y c/Z").unwrap();
+        let _ = if k % 2 == 0 { s.update_raw(String::new()) } else { s.update_tokenized("a  b") };
+        out.push(("fallback_after_rejected_update", observe(&s, false)));
+        out
+    });
+    let r2 = guard(|| {
+        // (b) tag-less model with tag prediction requested
+        ROUTE_TAGLESS.with(|p| {
+            let mut s = vaporetto::Sentence::from_tokenized("ab/X/Y c/Z d").unwrap();
+            p.predict(&mut s);
+            #[cfg(feature = "tag-prediction")]
+            s.fill_tags();
+            observe(&s, false)
+        })
+    });
+    ctx.eval(2);
+    ctx.count("special_history_states_round_tripped", 2);
+    let mut states = vec![];
+    match r {
+        Ok(v) => states.extend(v),
+        Err(p) => {
+            ctx.violation(&format!("{prop}:writer_panicked_on_fallback_sentence:{}", panic_site(&p)), J::obj(vec![("panic", J::s(&p))]));
+            return;
+        }
+    }
+    match r2 {
+        Ok(o) => states.push(("after_fill_tags_with_tagless_model", o)),
+        Err(p) => {
+            ctx.violation(&format!("{prop}:writer_panicked_after_fill_tags_with_tagless_model:{}", panic_site(&p)), J::obj(vec![("panic", J::s(&p))]));
+            return;
+        }
+    }
+    for (name, obs) in states {
+        let Ok(want) = obs.to_ref() else {
+            ctx.violation(&format!("{prop}:inconsistent_sentence_state:{name}"), obs.to_json());
+            continue;
+        };
+        if partial || !want.labels.contains(&2) {
+            let written = if partial { obs.partial.clone() } else { obs.tokenized.clone() };
+            let back = if partial { fmt::parse_partial(&written) } else { fmt::parse_tokenized(&written) };
+            let ok = match back {
+                Ok(b) => fmt::same_modulo_trailing(&want, &b).is_ok(),
+                Err(_) => false,
+            };
+            let lib_ok = guard(|| {
+                let r = if partial { vaporetto::Sentence::from_partial_annotation(&written) } else { vaporetto::Sentence::from_tokenized(&written) };
+                r.ok().and_then(|s| observe(&s, false).to_ref().ok()).map(|b| fmt::same_modulo_trailing(&want, &b).is_ok()).unwrap_or(false)
+            })
+            .unwrap_or(false);
+            if !ok || !lib_ok {
+                ctx.violation(
+                    &format!("{prop}:round_trip_of_history_state_fails:{name}"),
+                    J::obj(vec![("state", obs.to_json()), ("written", J::s(&written)), ("reference_parser_ok", J::B(ok)), ("library_parser_ok", J::B(lib_ok))]),
+                );
+            }
+        }
+    }
+}
+
+thread_local! {
+    static ROUTE_TAGLESS: vaporetto::Predictor = {
+        let m = vgen::mirror::ModelData {
+            char_ngram_model: vec![vgen::mirror::NgramData { ngram: "b".into(), weights: vec![3, -3] }],
+            bias: 1,
+            char_window_size: 1,
+            type_window_size: 1,
+            ..Default::default()
+        };
+        new_predictor(&m, true).expect("tag-less predictor with tag prediction")
+    };
+}
+
 pub fn run_c03(ctx: &mut Ctx, from: u64, to: u64) {
     for k in from..to {
         ctx.begin_case(k);
+        if k % 256 == 0 {
+            special_states_round_trip(ctx, "C03", k / 256, false);
+        }
         let mut rng = Rng::new(case_seed(ctx.seed, "C03", k));
         let rs = gen_round_trip_sentence(&mut rng, false);
         count_fmt_facts(ctx, &rs);
@@ -527,6 +654,9 @@ pub fn run_c03x(ctx: &mut Ctx, from: u64, to: u64) {
 pub fn run_c04(ctx: &mut Ctx, from: u64, to: u64) {
     for k in from..to {
         ctx.begin_case(k);
+        if k % 256 == 0 {
+            special_states_round_trip(ctx, "C04", k / 256, true);
+        }
         let mut rng = Rng::new(case_seed(ctx.seed, "C04", k));
         let rs = gen_round_trip_sentence(&mut rng, true);
         count_fmt_facts(ctx, &rs);
@@ -671,9 +801,31 @@ fn c05_one(ctx: &mut Ctx, f: Fmt, input: &str, rng: &mut Rng) {
         }
     };
     // update on a sentence with a previous state
-    let prev_kind = rng.below(4);
+    let same_text: Option<String> = match &fresh {
+        Some(Some(o)) if !o.text.is_empty() => Some(o.text.clone()),
+        _ => None,
+    };
+    let mut prev_kind = rng.below(6);
+    if prev_kind >= 4 && same_text.is_none() {
+        prev_kind -= 3;
+    }
+    if prev_kind >= 4 {
+        ctx.count("updates_on_sentence_already_holding_the_same_text_with_labels", 1);
+    }
     let r = guard(|| {
         let mut s = match prev_kind {
+            4 | 5 => {
+                // the object already holds exactly this raw text, fully labelled and tagged
+                let mut s = Sentence::from_raw(same_text.clone().unwrap()).unwrap();
+                for (i, b) in s.boundaries_mut().iter_mut().enumerate() {
+                    *b = if (i + prev_kind) % 2 == 0 { vaporetto::CharacterBoundary::WordBoundary } else { vaporetto::CharacterBoundary::NotWordBoundary };
+                }
+                s.reset_tags(prev_kind - 3);
+                for t in s.tags_mut().iter_mut() {
+                    *t = Some(std::borrow::Cow::Borrowed("Q"));
+                }
+                s
+            }
             0 => Sentence::default(),
             1 => Sentence::from_raw("12345".to_string()).unwrap(),
             2 => Sentence::from_tokenized("ab/X/Y c/Z").unwrap(),
@@ -732,6 +884,47 @@ pub fn run_c05x(ctx: &mut Ctx, from: u64, to: u64) {
         if !s.is_empty() {
             ctx.nontrivial(fnv(s.as_bytes()));
         }
+        if k < 4352 {
+            scalar_block(ctx, k as u32);
+        }
+    }
+}
+
+/// Character types of every Unicode scalar value: block `b` = U+(256*b) .. U+(256*b+255), through
+/// the three constructors, against the reference transcription of the documented ranges.
+fn scalar_block(ctx: &mut Ctx, b: u32) {
+    let chars: Vec<char> = (b * 256..b * 256 + 256).filter_map(char::from_u32).filter(|&c| c != '\0').collect();
+    if chars.is_empty() {
+        return;
+    }
+    let plain: Vec<char> = chars.iter().copied().filter(|c| ![' ', '/', '\\', '-', '|'].contains(c)).collect();
+    let raw: String = chars.iter().collect();
+    let tok: String = plain.iter().collect();
+    let part: String = plain.iter().map(|c| c.to_string()).collect::<Vec<_>>().join("-");
+    let r = guard(|| {
+        let a = Sentence::from_raw(raw.clone()).map(|s| s.char_types().to_vec()).map_err(|e| e.to_string())?;
+        let t = Sentence::from_tokenized(&tok).map(|s| s.char_types().to_vec()).map_err(|e| e.to_string())?;
+        let p = Sentence::from_partial_annotation(&part).map(|s| s.char_types().to_vec()).map_err(|e| e.to_string())?;
+        Ok::<_, String>((a, t, p))
+    });
+    ctx.eval(3);
+    ctx.count("scalar_values_typed_through_all_constructors", chars.len() as u64);
+    match r {
+        Ok(Ok((a, t, p))) => {
+            for (name, got, src) in [("raw", &a, &chars), ("tokenized", &t, &plain), ("partial_annotation", &p, &plain)] {
+                let want = text::ctypes(src);
+                if *got != want {
+                    let at = got.iter().zip(&want).position(|(x, y)| x != y);
+                    let detail = match at {
+                        Some(i) => J::obj(vec![("code_point", J::s(format!("U+{:04X}", src[i] as u32))), ("observed_type", J::i(got[i])), ("documented_type", J::i(want[i]))]),
+                        None => J::obj(vec![("observed_len", J::i(got.len())), ("expected_len", J::i(want.len()))]),
+                    };
+                    ctx.violation(&format!("C05:{name}:char_types_differ_from_documented_ranges"), detail);
+                }
+            }
+        }
+        Ok(Err(e)) => ctx.violation("C05:valid_text_of_one_scalar_block_rejected", J::obj(vec![("block", J::i(b)), ("error", J::s(&e))])),
+        Err(p) => ctx.violation(&format!("C05:constructor_panicked_on_scalar_block:{}", panic_site(&p)), J::obj(vec![("block", J::i(b)), ("panic", J::s(&p))])),
     }
 }
 
@@ -925,5 +1118,125 @@ pub fn run_c05h(ctx: &mut Ctx, from: u64, to: u64) {
         if ctx.want_sample() {
             ctx.sample(J::obj(vec![("history", describe(&ops))]));
         }
+    }
+}
+
+/// C08 inside reduced feature configurations: annotation-bearing histories (parsers, reset_tags,
+/// direct writes, predictions) on one object, then `update_raw(x); predict` against a fresh sentence.
+pub fn run_c08f(ctx: &mut Ctx, from: u64, to: u64) {
+    use vgen::gen::{gen_case, GenOpts, TagMode};
+    for k in from..to {
+        ctx.begin_case(k);
+        let mut rng = Rng::new(case_seed(ctx.seed, "C08f", k));
+        let mut o = GenOpts::default();
+        o.max_text_len = 30;
+        o.max_window = 8;
+        o.tags = TagMode::Never;
+        o.min_texts = 3;
+        let case = gen_case(&mut rng, &o);
+        let Ok(Ok(pred)) = guard(|| new_predictor(&case.model, false)) else {
+            ctx.count("cases_skipped_predictor_construction_failed", 1);
+            continue;
+        };
+        let n_ops = rng.urange(1, 6);
+        let mut s: Sentence<'static, '_> = Sentence::default();
+        let mut hist: Vec<String> = vec![];
+        let mut tagged_before_final = false;
+        let mut panicked = false;
+        for _ in 0..n_ops {
+            let which = rng.below(7);
+            let t: String = { let t: &Vec<char> = rng.pick(&case.texts); t.iter().collect() };
+            let r = guard(|| match which {
+                0 => {
+                    let _ = s.update_raw(t.clone());
+                    format!("update_raw({:?})", clip(&t, 30))
+                }
+                1 => {
+                    let f = if rng.chance(1, 2) { Fmt::Tok } else { Fmt::Part };
+                    let inp = c05_input(&mut rng, f);
+                    let _ = sut_update(&mut s, f, &inp);
+                    format!("update_{}({:?})", f.name(), clip(&inp, 40))
+                }
+                2 => {
+                    let n = rng.below(4);
+                    s.reset_tags(n);
+                    format!("reset_tags({n})")
+                }
+                3 => {
+                    for t in s.tags_mut().iter_mut() {
+                        *t = Some(std::borrow::Cow::Borrowed("W"));
+                    }
+                    "write through tags_mut".to_string()
+                }
+                4 => {
+                    for b in s.boundaries_mut().iter_mut() {
+                        *b = boundary_of(rng.below(3) as u8);
+                    }
+                    "write through boundaries_mut".to_string()
+                }
+                5 => {
+                    let _ = s.update_raw(String::new());
+                    "update_raw(\"\")".to_string()
+                }
+                _ => {
+                    pred.predict(&mut s);
+                    "predict".to_string()
+                }
+            });
+            ctx.eval(1);
+            match r {
+                Ok(h) => hist.push(h),
+                Err(p) => {
+                    ctx.violation(&format!("C08:history_step_panicked:{}", panic_site(&p)), J::obj(vec![("history", J::A(hist.iter().map(J::s).collect())), ("panic", J::s(&p))]));
+                    panicked = true;
+                    break;
+                }
+            }
+            tagged_before_final = s.n_tags() > 0;
+        }
+        if panicked {
+            continue;
+        }
+        let txt: String = { let t: &Vec<char> = rng.pick(&case.texts); t.iter().collect() };
+        let reused = guard(|| {
+            s.update_raw(txt.clone()).map_err(|e| e.to_string())?;
+            pred.predict(&mut s);
+            Ok::<_, String>(observe(&s, false))
+        });
+        let fresh = guard(|| {
+            let mut f = Sentence::from_raw(txt.clone()).map_err(|e| e.to_string())?;
+            pred.predict(&mut f);
+            Ok::<_, String>(observe(&f, false))
+        });
+        ctx.eval(2);
+        ctx.flag("reduced_build_histories_with_tagged_state_before_final_update", tagged_before_final);
+        ctx.count("reduced_build_history_ops", hist.len() as u64);
+        let detail = |extra: Vec<(&str, J)>| {
+            let mut kv = vec![("history", J::A(hist.iter().map(J::s).collect())), ("final_text", J::s(clip(&txt, 60))), ("model", model_json(&case.model))];
+            kv.extend(extra);
+            J::obj(kv)
+        };
+        match (reused, fresh) {
+            (Ok(Ok(a)), Ok(Ok(b))) => {
+                if a != b {
+                    let what = if a.scores != b.scores {
+                        "scores"
+                    } else if a.labels != b.labels {
+                        "boundaries"
+                    } else if a.n_tags != b.n_tags {
+                        "tag_count"
+                    } else if a.tags != b.tags {
+                        "tags"
+                    } else {
+                        "tokens_or_written_output"
+                    };
+                    ctx.violation(&format!("C08:reused_sentence_differs_from_fresh:{what}"), detail(vec![("reused", a.to_json()), ("fresh", b.to_json())]));
+                }
+            }
+            (Err(p), _) => ctx.violation(&format!("C08:final_prediction_on_reused_sentence_panicked:{}", panic_site(&p)), detail(vec![("panic", J::s(&p))])),
+            (_, Err(p)) => ctx.violation(&format!("C08:fresh_prediction_panicked:{}", panic_site(&p)), detail(vec![("panic", J::s(&p))])),
+            _ => ctx.violation("C08:update_raw_of_valid_text_failed", detail(vec![])),
+        }
+        ctx.nontrivial(fnv(format!("{:?}{}", hist, txt).as_bytes()));
     }
 }
